@@ -45,6 +45,7 @@ class ObjectGenerationData:
         self.auxiliary_types = CodeBlock()
         self.docstring = CodeBlock()
         self.repr_fields = ["byte_size"]
+        self.needs_reached_missing_optional_variable = False
 
     def add_method(self, method):
         if self.methods:
@@ -187,6 +188,8 @@ class ObjectCodeGenerator:
         if self._context.needs_old_writer_length_variable:
             result.add_line('old_writer_length: int = len(writer)')
 
+        if self._data.needs_reached_missing_optional_variable:
+            result.add_line('reached_missing_optional: bool = False')
         result.add_line('old_string_sanitization_mode: bool = writer.string_sanitization_mode')
         result.begin_control_flow('try')
         result.add_code_block(self._data.serialize)
